@@ -5,6 +5,8 @@ import (
 	"encoding/json"
 	"flag"
 	"fmt"
+	"github.com/hyperjumptech/grule-rule-engine/builder"
+	"github.com/hyperjumptech/grule-rule-engine/pkg"
 	"sort"
 	"strings"
 	"testing"
@@ -32,7 +34,8 @@ type c16Op struct {
 	Op        string        `json:"op"`
 	KB        int           `json:"kb"`
 	Rules     []interface{} `json:"rules,omitempty"` // for build
-	Name      string        `json:"name,omitempty"`  // for remove*
+	JSON      bool          `json:"through_the_json_front_end,omitempty"`
+	Name      string        `json:"name,omitempty"` // for remove*
 	Overwrite bool          `json:"overwrite,omitempty"`
 }
 
@@ -109,7 +112,14 @@ func (w *c16World) apply(op c16Op) []string {
 			}
 			seen[r.Name] = true
 		}
-		berr, pan := obs.BuildInto(w.lib, kb.Name, kb.Version, text)
+		var berr error
+		var pan interface{}
+		if op.JSON {
+			// the same rules as a JSON rule set (raw GRL in its when/then members)
+			berr, pan = c16BuildJSON(w.lib, kb.Name, kb.Version, rules)
+		} else {
+			berr, pan = obs.BuildInto(w.lib, kb.Name, kb.Version, text)
+		}
 		if pan != nil {
 			return []string{fmt.Sprintf("BuildRuleFromResource panicked: %v", pan)}
 		}
@@ -196,6 +206,40 @@ func (w *c16World) apply(op c16Op) []string {
 		// handled inside the invariant (instance-local)
 	}
 	return v
+}
+
+func c16BuildJSON(lib *ast.KnowledgeLibrary, name, version string, rules []*gast.Rule) (err error, pan interface{}) {
+	defer func() {
+		if r := recover(); r != nil {
+			pan = r
+			err = fmt.Errorf("panic: %v", r)
+		}
+	}()
+	var set []interface{}
+	for _, r := range rules {
+		m := map[string]interface{}{"name": r.Name, "when": gast.ExprString(r.When)}
+		var then []interface{}
+		for _, st := range r.Then {
+			then = append(then, gast.StmtString(st))
+		}
+		m["then"] = then
+		if r.Desc != nil {
+			m["desc"] = *r.Desc
+		}
+		if r.Salience != nil {
+			m["salience"] = *r.Salience
+		}
+		set = append(set, m)
+	}
+	jb, jerr := json.Marshal(set)
+	if jerr != nil {
+		return jerr, nil
+	}
+	res, rerr := pkg.NewJSONResourceFromResource(pkg.NewBytesResource(jb))
+	if rerr != nil {
+		return rerr, nil
+	}
+	return builder.NewRuleBuilder(lib).BuildRuleFromResource(name, version, res), nil
 }
 
 func storeKB2(lib *ast.KnowledgeLibrary, kb c16KBKey, w *bytes.Buffer) (err error) {
@@ -355,7 +399,7 @@ func (w *c16World) invariant(instRemove map[int]string) []string {
 }
 
 func TestC16(t *testing.T) {
-	col := stats.New("C16", "stateful (model-based) generation over one library holding up to three knowledge bases (kbA/1, kbA/2, kbB/1): histories of up to 10 operations - build a resource of 1-3 generated rules (fresh names, names of removed rules = re-build with new text, duplicate names inside the resource or against active rules, half of the latter with the identical text of the rule in force), remove a rule through the library, remove it through the blueprint knowledge base, remove it from one instance only (before an Execute, or from a listener callback in the middle of one), store+load the knowledge base into the same library with overwrite on/off - against a model kb -> name -> rule text in force. Every rule writes its own JSON sink and retracts itself, so results are order-independent. Invariant after every step, for every knowledge base and 2 fact states: a duplicate build returned an error and left the model's rule in force; a new instance can be created; it has exactly one non-deleted entry per active name; FetchMatchingRules, the listener events and the sinks written by Execute involve exactly the model's active rules and agree with each rule's own text built alone; knowledge bases do not influence one another. Non-trivial: the history contains remove->re-build, remove->store/load or a double removal of one name. Distinct by the history.")
+	col := stats.New("C16", "stateful (model-based) generation over one library holding up to three knowledge bases (kbA/1, kbA/2, kbB/1): histories of up to 10 operations - build a resource of 1-3 generated rules, as GRL or (a quarter) as a JSON rule set (fresh names, names of removed rules = re-build with new text, duplicate names inside the resource or against active rules, half of the latter with the identical text of the rule in force), remove a rule through the library, remove it through the blueprint knowledge base, remove it from one instance only (before an Execute, or from a listener callback in the middle of one), store+load the knowledge base into the same library with overwrite on/off - against a model kb -> name -> rule text in force. Every rule writes its own JSON sink and retracts itself, so results are order-independent. Invariant after every step, for every knowledge base and 2 fact states: a duplicate build returned an error and left the model's rule in force; a new instance can be created; it has exactly one non-deleted entry per active name; FetchMatchingRules, the listener events and the sinks written by Execute involve exactly the model's active rules and agree with each rule's own text built alone; knowledge bases do not influence one another. Non-trivial: the history contains remove->re-build, remove->store/load or a double removal of one name. Distinct by the history.")
 	defer col.Flush()
 	_ = flag.Set("rapid.steps", "10")
 	stCfg := gen.StateCfg{D: gen.Small, JSON: true, Top: true}
@@ -450,7 +494,7 @@ func TestC16(t *testing.T) {
 					}
 					rules = append(rules, mkRule(rt, name))
 				}
-				step(c16Op{Op: "build", KB: kb, Rules: gast.EncodeRules(rules)})
+				step(c16Op{Op: "build", KB: kb, Rules: gast.EncodeRules(rules), JSON: rapid.IntRange(0, 3).Draw(rt, "json_front_end") == 0})
 			},
 			"removeFromLibrary": func(rt *rapid.T) {
 				kb := pickKB(rt)
